@@ -85,7 +85,7 @@ MethodFails(e) ==
 ExpJoinMic(e) ==
   LET f == e.frame IN
   IF f.kind = "joinacc" THEN JoinAcceptMic(f.dl.optneg, e.jrtype, Rev(e.joineui), LE(e.devnonce, 2), e.key, Msg(f))
-  ELSE JoinReqMic(e.key, Msg(f))
+  ELSE JoinReqMic(e.key, MsgOf(e))          \* a received frame: the MIC covers the bytes as received (reserved MHDR bits included)
 JoinMicFails(e) ==
   IF ~SpecValid(e.frame) THEN <<>>
   ELSE IF e.err # "" THEN <<"C04.mic">>
